@@ -176,8 +176,32 @@ def gen_config(rng, cls, nmax=3, closed=False, allow_periodic=True, kinds=None, 
                 return enc(rng.choice(vals))
             out.append(nested(shp, fn))
         return out
-    cfg["D"] = face_field([0, 1, 2, 3], closed)
-    cfg["u"] = face_field([-2, -1, 0, 1, 2], closed)
+    cfg["D"] = face_field([0, 1, 2, 3], bool(closed))
+    cfg["u"] = face_field([-2, -1, 0, 1, 2], bool(closed))
+    per_axes = []
+    if closed == "periodic":
+        # periodic closure: uniform-ended, non-radial axes (and not the polar angle of a sphere)
+        # get periodic coefficient fields (face N = face 0) instead of zero boundary coefficients
+        for a in range(d):
+            lab = drive.AXIS_LABELS[cls][a]
+            uni = (faces[a][1] - faces[a][0]) == (faces[a][-1] - faces[a][-2])
+            if lab != "r" and not (cls == "SphericalGrid3D" and lab == "theta") and uni and rng.random() < 0.7:
+                per_axes.append(a)
+        for key, vals in (("D", [1, 2, 3]), ("u", [-2, -1, 1, 2])):
+            for a in per_axes:
+                comp = cfg[key][a]
+                def setf(ix, v, comp=comp):
+                    t = comp
+                    for k in ix[:-1]:
+                        t = t[k]
+                    t[ix[-1]] = v
+                shp = face_shape(dims, a)
+                for ix in itertools.product(*[range(n) for n in shp]):
+                    if ix[a] == 0:
+                        v = enc(rng.choice(vals))
+                        setf(ix, v)
+                        jx = list(ix); jx[a] = dims[a]
+                        setf(tuple(jx), v)
     mode = rng.random()
     if mode < 0.5:        # upwind direction = same sign pattern, different magnitudes
         cfg["uup"] = [_map(c, lambda q: enc(dec(q) * 3)) for c in cfg["u"]]
@@ -199,6 +223,8 @@ def gen_config(rng, cls, nmax=3, closed=False, allow_periodic=True, kinds=None, 
         uniform_ends = (faces[a][1] - faces[a][0]) == (faces[a][-1] - faces[a][-2])
         per = (allow_periodic and not radial and rng.random() < 0.25
                and (uniform_ends or not uniform_periodic))
+        if closed == "periodic":
+            per = a in per_axes
         flag = rng.choice(["lo", "hi", "both"]) if per else None
         for s, high in ((lo, False), (hi, True)):
             shp = trans_shape(dims, a)
@@ -420,6 +446,25 @@ def observe(cfg, want):
             MbcS, RbcS = P.boundaryConditionsTerm(bcs)
             obs["MbcS"] = mat_entries(MbcS, c.dims)
             obs["RbcS"] = vec_nested(RbcS, c.dims)
+        if W & {"f_ctor", "f_apply", "f_solve", "f_explicit", "profile"}:
+            inner = interior(c.phi_full)
+            v = P.CellVariable(c.m, inner.copy(), c.bc)
+            obs["f_ctor"] = lift.lift_array(np.asarray(v._value))[0]
+            v2 = P.CellVariable(c.m, 0.0, make_bc(c.m, cfg["bc"], d))
+            v2.value = inner
+            v2.apply_BCs()
+            obs["f_apply"] = lift.lift_array(np.asarray(v2._value))[0]
+            beta1 = to_float_array(cfg["beta"]) + 1.0
+            gam = to_float_array(cfg["gamma"])
+            v3 = P.CellVariable(c.m, inner.copy(), make_bc(c.m, cfg["bc"], d))
+            P.solvePDE(v3, [P.linearSourceTerm(P.CellVariable(c.m, beta1)),
+                            P.constantSourceTerm(P.CellVariable(c.m, gam))])
+            obs["f_solve"] = lift.lift_array(np.asarray(v3._value))[0]
+            prof = v3.plotprofile()[-1]
+            obs["profile"] = lift.lift_array(np.asarray(prof))[0]
+            v4 = P.CellVariable(c.m, inner.copy(), make_bc(c.m, cfg["bc"], d))
+            v5 = P.solveExplicitPDE(v4, float(dec(cfg["dt"])), P.constantSourceTerm(P.CellVariable(c.m, gam)))
+            obs["f_explicit"] = lift.lift_array(np.asarray(v5._value))[0]
         if proxy is not None:
             obs["trig_calls"] = len(proxy.calls)
     return obs
